@@ -55,6 +55,11 @@ def gen_case(rng, tier, idx):
         # x (1 +- 0.01)): the rule moves far quotes to an off-grid edge BEFORE the market sees them
         c = gen_runner_case(rng, tier, profile="matching", style="plain", clipped=(idx % 40 == 39))
         c["hooks_change_prices"] = (idx % 40 == 39)
+        # the spot markets reach the runner as the last block of a two-level extends chain whose template has another
+        # tick size; the tick a price is judged against is the CONFIGURED one
+        for name, v in c["config"].items():
+            if isinstance(v, dict) and v.get("class") in ("Market", "DepthMarket") and (idx // 20) % 2 == 0:
+                v["viaExtends"] = True
         for name, v in c["config"].items():
             if isinstance(v, dict) and "program" in v:
                 for w, tpl in v["program"]["actions"]:
@@ -190,7 +195,11 @@ def run_case(case, res):
                     q = req.get(id(ev["order"]))
                     if case.get("hooks_change_prices") and q is not None and q[1].get("price") != r[1]["price"]:
                         res.count("class/runner_price_rewritten_by_a_rule_before_acceptance")
-                    judge(res, ev["mkt"].tick_size, r[1]["price"], r[1]["is_buy"], ev["log"].price, "runner")
+                    blk = case["config"].get(ev["mkt"].name)
+                    tick_cfg = blk["tickSize"] if isinstance(blk, dict) and "tickSize" in blk else ev["mkt"].tick_size
+                    if isinstance(blk, dict) and blk.get("viaExtends"):
+                        res.count("class/runner_market_configured_through_an_extends_chain")
+                    judge(res, tick_cfg, r[1]["price"], r[1]["is_buy"], ev["log"].price, "runner")
                     res.count("class/runner_offgrid")
                     if ev["order"].price != ev["log"].price:
                         res.violation("record", "order-price-differs-from-order-log-price", {"order": ev["snap"]})
